@@ -157,8 +157,10 @@ def install(args):
         rec = st['keys'].setdefault(key, {'sigs': {}, 'n': 0})
         rec['n'] += 1
         ent = rec['sigs'].setdefault(s, {'n': 0, 'line': _line(item_nodes), 'sig': _vsig(val), 'orders': set(),
-                                         'lines': []})
+                                         'lines': [], 'via_default': False})
         ent['n'] += 1
+        if any(type(n).__name__ == 'DefaultLiteralArgNode' for n in item_nodes if n is not None):
+            ent['via_default'] = True
         if len(ent['lines']) < 40:
             ent['lines'].append(_line(item_nodes))
         if o is not None:
@@ -252,7 +254,8 @@ def per_job(job, result):
             pass
         if problems and key in st['used_keys']:
             collisions.append({'outer': str(key[0]), 'values': [{'sig': p['sig'], 'line': p['line'], 'n': p['n'],
-                                                                 'lines': p['lines'], 'orders': sorted(p['orders'])}
+                                                                 'lines': p['lines'], 'orders': sorted(p['orders']),
+                                                                 'via_default': p['via_default']}
                                                                 for p in problems]})
     num_coll = []
     for cname, rec in st['num'].items():
